@@ -5,6 +5,9 @@
 #include <string>
 #include <vector>
 #include <functional>
+#include <set>
+#include <map>
+#include <algorithm>
 
 namespace scn {
 
